@@ -1,8 +1,9 @@
 """C17 — each strictness option changes exactly the check it names, nothing else."""
 from props.common_prog import judge_prog
 
-THEOREM_MODULES = ["Hcl.Theorems.C17", "Hcl.Tie.Ops"]
-THEOREMS = {"Hcl.Tie.Ops": ["Tie.Ops.strictnessConsts", "Tie.Ops.defaultFeatures", "Tie.Ops.binopApplyText"], "Hcl.Theorems.C17": ["C17_eval_flag_independent"]}
+THEOREM_MODULES = ["Hcl.Theorems.C17", "Hcl.Tie.Ops", "Hcl.Tie.PinsCheck"]
+THEOREMS = {"Hcl.Tie.Ops": ["Tie.Ops.strictnessConsts", "Tie.Ops.defaultFeatures", "Tie.Ops.binopApplyText"], "Hcl.Theorems.C17": ["C17_eval_flag_independent"],
+            "Hcl.Tie.PinsCheck": ["Tie.PinsCheck.pinGetWidthAndCheck", "Tie.PinsCheck.pinFixMuxWidths", "Tie.PinsCheck.pinEvaluate"]}
 
 RULE = ("S-FEATURES: the harness (and with it hclrs) is rebuilt per strictness feature set (quick: default, none, all, "
         "each of the five options alone; thorough: all 32 subsets); each build reports its "
